@@ -21,7 +21,8 @@ def rows(lo, hi):
     stats = {'n': 0, 'first': 0, 'after': 0, 'nfi': 0, 'missed': 0}
     for d in sorted(glob.glob(os.path.join(VERIF, 'seeded', 'c??_?'))):
         sid = os.path.basename(d)
-        k = int(sid.split('_')[1])
+        k = sid.split('_')[1]
+        k = int(k) if k.isdigit() else 9 + ord(k) - ord('a')       # rounds beyond the fourth are labelled a, b, ...
         if not (lo <= k <= hi):
             continue
         m = json.load(open(os.path.join(d, 'meta.json')))
@@ -47,8 +48,10 @@ def rows(lo, hi):
 
 def main():
     text = []
-    for title, lo, hi in (('Second round', 3, 4), ('Third round', 5, 6), ('Fourth round', 7, 8)):
+    for title, lo, hi in (('Second round', 3, 4), ('Third round', 5, 6), ('Fourth round', 7, 8), ('Fifth round', 9, 10)):
         r, st = rows(lo, hi)
+        if not r:
+            continue
         text.append('**%s: %d changes** — %d detected by the check as it stood, %d after it was strengthened, %d reported without a '
                     'failing input, %d not detected.\n' % (title, st['n'], st['first'], st['after'], st['nfi'], st['missed']))
         text.append('| id | change | needs | result (quick tier, from `seeded/<id>/meta.json`) |')
